@@ -159,7 +159,9 @@ ImplOut == IF result = 0 THEN Exc("AssertionError")
 Cls == IF ImplOut = ReqOut THEN ""
        ELSE CASE callee = "eval" /\ form = "expr" -> "variable-not-referenced-in-body"
               [] callee = "eval" /\ form = "expr,g" -> "frame-locals-shadow-explicit-globals"
-              [] callee = "eval" /\ form \in {"expr,None", "expr,None,None"} -> "none-globals"
+              [] callee = "eval" /\ form \in {"expr,None", "expr,None,None"} ->
+                   (* with None defaulted correctly the variable would still have to be in the found frame *)
+                   IF InLocals \/ tv = "G" THEN "none-globals" ELSE "variable-not-referenced-in-body"
               [] callee = "locals" -> "variables-not-referenced-in-body"
               [] OTHER -> "unexpected"
 
